@@ -983,6 +983,7 @@ func (c *chessCtx) checkC09(o *Obs, fen string, pFen, pPath *position.Position) 
 		c.res.count("C09.incheck_compared", 1)
 	}
 	p := pFen
+	cold, _ := position.NewPositionFen(fen) // never queried: only copied
 	legal := map[int]bool{}
 	for _, m := range o.Legal {
 		legal[m] = true
@@ -1025,6 +1026,28 @@ func (c *chessCtx) checkC09(o *Obs, fen string, pFen, pPath *position.Position) 
 		if il != legal[pr.M] || wl != legal[pr.M] {
 			c.disc("C09", "legality-tests", fmt.Sprintf("legality/kind%d", pr.K), o, fen,
 				map[string]interface{}{"move": mvUci(pr.M), "IsLegalMove": il, "WasLegalMove": wl, "rules": legal[pr.M]})
+		}
+		// the same three questions asked "cold": on a copy of a position on which no other query was ever made (the
+		// predicates must not depend on flags that earlier queries happen to have cached)
+		if cold != nil {
+			var gc, ilc, wlc bool
+			e1 := guard(func() { cp := *cold; gc = cp.GivesCheck(mv) })
+			e2 := guard(func() { cp := *cold; ilc = cp.IsLegalMove(mv) })
+			e3 := guard(func() { cp := *cold; cp.DoMove(mv); wlc = cp.WasLegalMove() })
+			if e1+e2+e3 != "" {
+				c.disc("C09", "predicate-panic-cold", "panic/cold", o, fen, e1+e2+e3)
+			} else {
+				c.res.count("C09.cold_moves_compared", 1)
+				if ilc != legal[pr.M] || wlc != legal[pr.M] {
+					c.disc("C09", "legality-tests-cold", fmt.Sprintf("legality-cold/kind%d", pr.K), o, fen,
+						map[string]interface{}{"move": mvUci(pr.M), "IsLegalMove": ilc, "WasLegalMove": wlc, "rules": legal[pr.M],
+							"note": "asked on a fresh position from FEN, no query before"})
+				}
+				if gc != pr.Gives && legal[pr.M] {
+					c.disc("C09", "gives-check-cold", fmt.Sprintf("gives-check-cold/kind%d", pr.K), o, fen,
+						map[string]interface{}{"move": mvUci(pr.M), "engine": gc, "spec": pr.Gives})
+				}
+			}
 		}
 		// the cached check flag must survive do/undo
 		var hc2 bool
